@@ -303,6 +303,8 @@ def gen_pre(r):
             out.append(r.choice(["dither", {"name": "dither", "coeff": r.choice([1.0, 2.5])}]))
         else:
             out.append(r.choice(["preemph", {"name": "preemphasize", "coeff": r.choice([0.97, 0.5, 0.9])}]))
+    if out and isinstance(out[-1], dict) and r.random() < 0.3:
+        out.append(dict(out[-1]))  # the same step a second time
     return out
 
 
@@ -316,6 +318,8 @@ def gen_post(r):
             out.append({"name": "stack", "num_vectors": r.choice([2, 3])})
         else:
             out.append(r.choice(["cmvn", "standardize", {"name": "unit"}]))
+    if out and isinstance(out[-1], dict) and out[-1].get("name") in ("deltas", "stack") and r.random() < 0.3:
+        out.append(dict(out[-1]))  # the same step a second time
     return out
 
 
@@ -393,6 +397,9 @@ def dump_cfg(r, cfg, d, name, force=None):
     return path, how
 
 
+_ANCHOR = [0]
+
+
 def to_yaml(v, ind):
     """block-style YAML written by hand (not with the library under test's loader)"""
     pad = "  " * ind
@@ -410,7 +417,20 @@ def to_yaml(v, ind):
         if not v:
             return pad + "[]\n"
         out = ""
-        for x in v:
+        # a step that occurs more than once is written once with an anchor and repeated as an alias (the usual way to say
+        # "the same settings again" in YAML; the loader hands the consumer the same mapping object each time)
+        anchors = {}
+        for i, x in enumerate(v):
+            if isinstance(x, dict) and x:
+                key = json.dumps(x, sort_keys=True)
+                if key in anchors:
+                    out += "%s- *%s\n" % (pad, anchors[key])
+                    continue
+                if any(isinstance(y, dict) and json.dumps(y, sort_keys=True) == key for y in v[i + 1:]):
+                    _ANCHOR[0] += 1
+                    anchors[key] = "step%d" % _ANCHOR[0]
+                    out += "%s- &%s\n%s" % (pad, anchors[key], to_yaml(x, ind + 1))
+                    continue
             if isinstance(x, (dict, list)) and x:
                 body = to_yaml(x, ind + 1)
                 out += pad + "- " + body[len(pad) + 2:]
